@@ -42,7 +42,7 @@ fn plan(prop: &str, tier: &str) -> (&'static str, u64) {
         "C05" => ("seq", if thorough { 400_000 } else { 24_000 }),
         "C06" => ("seq", if thorough { 300_000 } else { 20_000 }),
         "C07" => ("seq", if thorough { 200_000 } else { 10_000 }),
-        "C08" => ("seq", if thorough { 100_000 } else { 6_000 }),
+        "C08" => ("seq", if thorough { 120_000 } else { 6_000 }),
         "C03" => ("seq", if thorough { 150_000 } else { 8_000 }),
         _ => ("none", 0),
     }
